@@ -1,5 +1,5 @@
 #!/bin/bash
-# usage: eval_seed.sh <patch> <prop>... : apply patch to /repo, run the named checks, restore /repo
+# usage: eval_seed.sh <patch> <prop>... : apply patch to /repo, run the named checks (quick tier), restore /repo
 P=$1; shift
 git -C /repo apply "$(realpath "$P")" || { echo "patch does not apply"; exit 2; }
 for p in "$@"; do
